@@ -209,4 +209,37 @@ for t, ct in ITYPES:
     U('C03', 'c03.op.f_%s' % ct, '_ZN9fixedmathdvINS_7fixed_tE%svEEDaT_T0_' % t, ks[1], ks[2], replace=[ks], cxx='($1 / $2)', backends=MULBE, timeout=300)
     U('C03', 'c03.assign.%s' % ct, '_ZN9fixedmathdVI%svEERNS_7fixed_tES2_T_' % t, ks[1], ks[2], replace=[ks], cxx='($1 /= $2)', backends=MULBE, timeout=300)
 
+# ----------------------------------------------------------------------------- C16
+prop('C16', 'proof',
+     'For each of the 8 integral operand types and float, relational lemmas over the REAL operators state that '
+     'a op t == a op fixed_t(t), t op a == fixed_t(t) op a and that a op= t leaves a == a op t (fixed*integer and '
+     'fixed/integer: exact product / exact truncated quotient as in C02/C03, and n*a == a*n); for double the lemma '
+     'states bit-identity (+0/-0 distinguished, NaN == NaN) with the IEEE operation on double(a) and the operand in '
+     'the written order. Every lemma is verified for all finite a and all t that convert without NaN; the forwarding '
+     'layers, promotions and conversions are inlined, the multiplication/division kernels enter the relational '
+     'lemmas through the determinism abstraction (same kernel, same arguments => same result).',
+     not_decided=['a op= double does not compile in the library (no assignment from double), so it is outside the domain'])
+OPS = [('add', '+'), ('sub', '-'), ('mul', '*'), ('div', '/')]
+UF_MULI = (MULI, 'UF', None)
+UF_DIVF = (DIVF, 'UF', None)
+for t, ct in ITYPES:
+    pre = 'pre_c16_' + t
+    ks = '_ZN9fixedmath6detail21fixed_multiply_scalarI%svEENS_7fixed_tES2_T_' % t
+    kd = '_ZN9fixedmath6detail24fixed_division_by_scalarI%svEENS_7fixed_tES2_T_' % t
+    for opn, sym in OPS[:2]:
+        for v in ('lr', 'rl', 'as'):
+            U('C16', 'c16.%s.%s.%s' % (opn, v, ct), 'lem_c16_%s_%s_%s' % (v, opn, t), pre, None, lemma=True, cxx='lem_c16_%s_%s_%s($1,$2)' % (v, opn, t))
+    U('C16', 'c16.muls.%s' % ct, 'lem_c16_muls_' + t, 'pre_muls_' + t, None, lemma=True, cxx='lem_c16_muls_%s($1,$2)' % t, backends=MULBE, timeout=600)
+    U('C16', 'c16.mulc.%s' % ct, 'lem_c16_mulc_' + t, 'pre_muls_' + t, None, lemma=True, cxx='lem_c16_mulc_%s($1,$2)' % t, replace=[(ks, 'UF', None)])
+    U('C16', 'c16.mul.as.%s' % ct, 'lem_c16_as_mul_' + t, 'pre_muls_' + t, None, lemma=True, cxx='lem_c16_as_mul_%s($1,$2)' % t, replace=[(ks, 'UF', None)])
+    U('C16', 'c16.divs.%s' % ct, 'lem_c16_divs_' + t, 'pre_muls_' + t, None, lemma=True, cxx='lem_c16_divs_%s($1,$2)' % t, engine='int', timeout=120)
+    U('C16', 'c16.div.as.%s' % ct, 'lem_c16_as_div_' + t, 'pre_muls_' + t, None, lemma=True, cxx='lem_c16_as_div_%s($1,$2)' % t, replace=[(kd, 'UF', None)])
+    U('C16', 'c16.div.rl.%s' % ct, 'lem_c16_rl_div_' + t, pre, None, lemma=True, cxx='lem_c16_rl_div_%s($1,$2)' % t, replace=[UF_DIVF])
+for opn, sym in OPS:
+    rep = {'mul': [UF_MULI], 'div': [UF_DIVF]}.get(opn, [])
+    for v in ('lr', 'rl', 'as'):
+        U('C16', 'c16.%s.%s.float' % (opn, v), 'lem_c16_%s_%s_f' % (v, opn), 'pre_c16_f', None, lemma=True, cxx='lem_c16_%s_%s_f($1,$2)' % (v, opn), replace=rep, backends=('sat', 'kissat'), timeout=300)
+    U('C16', 'c16.%s.lr.double' % opn, 'lem_c16_dlr_' + opn, 'pre_c16_d', None, lemma=True, cxx='lem_c16_dlr_%s($1,$2)' % opn, backends=('cvc5fpa', 'z3fpa', 'kissat'), timeout=300)
+    U('C16', 'c16.%s.rl.double' % opn, 'lem_c16_drl_' + opn, 'pre_c16_d', None, lemma=True, cxx='lem_c16_drl_%s($1,$2)' % opn, backends=('cvc5fpa', 'z3fpa', 'kissat'), timeout=300)
+
 NOT_APPLICABLE = {}
